@@ -2,6 +2,10 @@
 
 Importing this package installs the dependency-compat shim (see DESIGN.md §0 and
 Appendix A) so that /repo's unmodified sources import against the installed
-hugr / tket-exts wheels.
+hugr / tket-exts wheels.  VERIF_NO_SHIM=1 skips it (used only by the CS-2 conformance
+helper, which runs the *installed* guppylang 1.0.4 and must not be patched).
 """
-import vcompat  # noqa: F401  (side effect: dependency API shim)
+import os as _os
+
+if _os.environ.get("VERIF_NO_SHIM") != "1":
+    import vcompat  # noqa: F401  (side effect: dependency API shim)
